@@ -287,9 +287,13 @@ def decide(prop, mod, a, seed, procs, binfo, t0, workdir, native):
 
     # sanitizer reports in esutil's own sources are witnesses for this property
     seen = set()
+    san_ignored = set()
     for r in san_reports:
         cls = (r["kind"], r["frame"])
         if cls in seen:
+            continue
+        if hasattr(mod, "san_relevant") and not mod.san_relevant(r):
+            san_ignored.add("%s in %s" % cls)
             continue
         seen.add(cls)
         key = None
@@ -380,7 +384,8 @@ def decide(prop, mod, a, seed, procs, binfo, t0, workdir, native):
             "skips": {m: c["skipped"] for m, c in my_counts.items() if c["skipped"]},
             "sanitizer": {"enabled": bool(native), "cases_on_san_build": ran["san"],
                           "reports_in_esutil_sources": len(san_reports),
-                          "distinct_report_classes": len(seen)},
+                          "distinct_report_classes": len(seen),
+                          "report_classes_not_bearing_on_this_property": sorted(san_ignored)},
             "argument_snapshots": {"arrays_snapshotted": c15_checked,
                                    "functions_observed": len(c15_funcs),
                                    "differences_seen": len(c15)},
